@@ -268,6 +268,9 @@ def impl(case):
                 res['mutated'] = bool((f.variables['TFLAG'][:] != before).any())
                 if -635 not in [d for d, t in case['flags']]:
                     res['gettimes'] = _times_out(coordutil.gettimes(f))
+                    if hasattr(f, 'TSTEP') and int(f.TSTEP) >= 0:
+                        # the functional front end for the cell bounds of a flag file (pncdump's time strings)
+                        res['bnds'] = [_times_out(list(row)) for row in coordutil.gettimebnds(f)]
                 if case.get('edit'):
                     for j, (d_, t_) in case['edit']:
                         f.variables['TFLAG'][j, :, 0] = d_
@@ -551,6 +554,12 @@ def oracle(case, res):
         got = [Fraction(x) for x in res['times']]
         if got[:len(exp)] != exp:
             return 'decoded %s but flags encode %s' % (got[:3], exp[:3])
+        if 'bnds' in res:
+            # computed through fractional days in floating point: compared to the millisecond
+            lo = [Fraction(row[0]) for row in res['bnds']]
+            if len(lo) != len(exp) or any(abs(a - b) > Fraction(1, 1000) for a, b in zip(lo, exp)):
+                return 'coordutil.gettimebnds starts the cells at %s, the flags encode %s' % (
+                    [str(x) for x in lo[:3]], [str(x) for x in exp[:3]])
         if case.get('edit') and 'times2' in res:
             fl2 = [list(x) for x in case['flags']]
             for j, dt_ in case['edit']:
